@@ -527,7 +527,6 @@ struct Actor {
               // the body of MessageQueue::get<T>() / get<T>(timeout) with the result slot on the heap instead of the caller's stack,
               // so that a late or repeated delivery is observed (scribble check) instead of corrupting a dead stack frame
               auto** slot = new Msg*(nullptr);
-              g_scribs.push_back({g, h, slot, nullptr, 0});
               bool timedout = false;
               try {
                 if (op == "qgets")
@@ -537,8 +536,9 @@ struct Actor {
               } catch (const simgrid::TimeoutException&) {
                 timedout = true;
               }
+              g_scribs.push_back({g, h, slot, nullptr, 0}); // the call returned: the slot is scribbled below and watched until the end
               if (timedout) {
-                // the slot stays registered: a payload written into it later on shows a get that was over and still consumed a put
+                // a payload written into it later on shows a get that was over and still consumed a put
                 if (*slot != nullptr)
                   P("R %d %d %s h=%d st=timeout-but-%s\n", a, i, op.c_str(), h, describe_ptr(*slot, g).c_str());
                 else
